@@ -46,8 +46,8 @@ typedef struct { uint8_t f, v; } trans_t;
 #define LH 4
 #define PW 8
 #define PH 7
-#define NPROBE 7
-static const char *PROBEN[NPROBE] = { "as-source-SRC", "as-source-OVER", "as-mask", "as-dest-OVER", "as-dest-ATOP-masked", "as-source-OVER-inside", "as-mask-inside" };
+#define NPROBE 8
+static const char *PROBEN[NPROBE] = { "as-source-SRC", "as-source-OVER", "as-mask", "as-dest-OVER", "as-dest-ATOP-masked", "as-source-OVER-inside", "as-mask-inside", "as-source-OVER-onto-a2r10g10b10(float pipeline)" };
 
 /* ---------------------------------------------------------------- read-only context (built before the workers fork) */
 static pixman_fixed_t *sep_params, *sep_params_b; static int sep_n;
@@ -232,7 +232,7 @@ static const char *model_mismatch(const obj_t *o, const ast_t *s)
 /* ---------------------------------------------------------------- probes */
 typedef struct { uint8_t out[NPROBE][PW * PH * 4]; int len[NPROBE]; } probe_t;
 
-typedef struct { pixman_image_t *d, *solid, *s33, *m33, *scratch; uint32_t dbuf[PW * PH], s33buf[9], scbuf[PW * PH]; uint8_t m33buf[12]; } aux_t;
+typedef struct { pixman_image_t *d, *dw, *solid, *s33, *m33, *scratch; uint32_t dbuf[PW * PH], s33buf[9], scbuf[PW * PH]; uint8_t m33buf[12]; } aux_t;
 static aux_t AUX; static int aux_ready;
 static pixman_image_t *fl_img[2]; static uint32_t fl_buf[2][1];
 static void aux_init(void)
@@ -240,6 +240,7 @@ static void aux_init(void)
     if (aux_ready) return;
     aux_ready = 1;
     AUX.d = pixman_image_create_bits(PIXMAN_a8r8g8b8, PW, PH, AUX.dbuf, PW * 4);
+    AUX.dw = pixman_image_create_bits(PIXMAN_a2r10g10b10, PW, PH, AUX.dbuf, PW * 4);       /* same storage, 10-bit view: composites onto it run in the float pipeline */
     pixman_color_t c = { 0xc0c0, 0x3030, 0x6060, 0xd0d0 };
     AUX.solid = pixman_image_create_solid_fill(&c);
     for (int i = 0; i < 9; i++) AUX.s33buf[i] = translucent(i * 3 + 2);
@@ -276,7 +277,11 @@ static void run_probes(obj_t *o, probe_t *pr, int fill_cache)
     for (int i = 0; i < PW * PH; i++) AUX.dbuf[i] = translucent(i + 2);
     pixman_image_composite32(PIXMAN_OP_OVER, AUX.solid, o->img, AUX.d, 0, 0, -1, -1, 0, 0, PW, PH);
     memcpy(pr->out[2], AUX.dbuf, sizeof AUX.dbuf); pr->len[2] = sizeof AUX.dbuf;
-    ncomposites += 3;
+    /* 7: as source, OVER, evaluated by the wide (float) fetchers and combiners */
+    for (int i = 0; i < PW * PH; i++) AUX.dbuf[i] = translucent(i + 9) | 0xc0000000u;
+    pixman_image_composite32(PIXMAN_OP_OVER, o->img, NULL, AUX.dw, -1, -1, 0, 0, 0, 0, PW, PH);
+    memcpy(pr->out[7], AUX.dbuf, sizeof AUX.dbuf); pr->len[7] = sizeof AUX.dbuf;
+    ncomposites += 4;
     if (IS_BITS(o->kind)) {
         /* 3, 4: as destination; the image's storage (and its alpha map's) is read back raw, then restored */
         for (int p = 3; p < 5; p++) {
@@ -376,7 +381,7 @@ static int judge(int kind, const char *mm, const ast_t *m, const probe_t *pl, co
             int word = off / 4; uint32_t a, b; memcpy(&a, pl->out[p] + word * 4, 4); memcpy(&b, pf.out[p] + word * 4, 4);
             vd->failed = 1; snprintf(vd->key, sizeof vd->key, "c14-after-%s-%s", FIELDN[field], PROBEN[p]);
             snprintf(vd->text, sizeof vd->text, "%s, %s: probe %s of the long-lived image differs from a fresh image with the same properties {%s} at byte %d (%s): long-lived %08x, fresh %08x; history: %s",
-                     KINDN[kind], what, PROBEN[p], st, off, p < 3 ? "of the 8x7 a8r8g8b8 probe destination" : "of the image's own storage + alpha map", a, b, history);
+                     KINDN[kind], what, PROBEN[p], st, off, (p < 3 || p == 7) ? "of the 8x7 probe destination" : "of the image's own storage + alpha map", a, b, history);
             ok = 0;
         }
     }
